@@ -154,6 +154,28 @@ Theorem C10_ledger_is_replay_of_main_chain : forall cfg genesis_addr team_key g 
 Proof. exact ledger_is_replay_validated. Qed.
 Print Assumptions C10_ledger_is_replay_of_main_chain.
 
+(* consequence: EVERY committed state conserves coins (C01 for every history): the balances of the stored ledger sum
+   to the emission scheduled for the heights 0 .. top_h, at most the maximum supply; the staked total is the exact sum
+   of all pool funds; nothing wraps.  Proof: Proofs/NodeConservation.v (Props/C01.v: the C01_reachable theorems). *)
+From Virel Require Proofs.StakedSum Proofs.KeyInv Proofs.NodeConservation.
+Theorem C10_every_commit_conserves : forall cfg genesis_addr team_key g n0 ops,
+  cfg_ok_emission cfg = true -> cfg_ok_feepos cfg = true ->
+  node0 cfg genesis_addr g = Ok n0 -> b_height g = 0 -> b_cd g = b_diff g ->
+  N.of_nat (length ops) < two64 - 1 ->
+  let n := run cfg genesis_addr team_key n0 ops in
+  Forall (tx_c cfg) (b_txs g) ->
+  (forall h b, get_block n h = Some b -> Forall (fun t => wf_tx cfg t /\ ver_ok t = true) (b_txs b)) ->
+  (forall bs, up (b_hash g) (blocks n) (b_hash g) bs ->
+     NoDup (bkeys g ++ flat_map bkeys bs) /\ c0 g + bnouts bs < two64 /\ c0 g + bntx bs < two64) ->
+  total_bal (ldg n) = sum_rewards cfg (N.to_nat (top_h n)) /\ total_bal (ldg n) <= max_supply cfg /\
+  StakedSum.SInv (ldg n) /\
+  (forall a s, get_state (ldg n) a = Some s -> bal s < two64) /\ staked (ldg n) < two64 /\
+  NoDup (map fst (accts (ldg n))) /\ NoDup (map fst (dlgs (ldg n))) /\
+  (forall id d f, get_dlg (ldg n) id = Some d -> In f (d_funds d) -> 0 < f_amt f) /\
+  (forall id d, get_dlg (ldg n) id = Some d -> NoDup (map f_owner (d_funds d))).
+Proof. exact NodeConservation.reachable_conserved. Qed.
+Print Assumptions C10_every_commit_conserves.
+
 (* CRASH AND REDELIVERY.  A node stopped after its k-th delivery holds the state after those k deliveries (whole
    deliveries only); the restart check is the identity (C10_restart_is_identity); the deliveries are then offered again
    from an earlier point j <= k.  When the re-offered deliveries j..k-1 are blocks the node holds (they were accepted
